@@ -322,36 +322,15 @@ def rule_writer(ctx):
     # SSLv2 header bit packing
     f = ctx.index.func("messages:RecordHeader2.write")
     g = ctx.an.cfg(f)
-    tests = [t for t in g.nodes if t.kind == "test" and "self.length >=" in norm(t.expr)]
-    eff = [t for t in tests if "T" in dead_edge_labels(g, t, [g.exit])]
-    if not eff:
-        ctx.fail(R, f.qname, "length overflow gate of RecordHeader2.write", "no effective overflow gate", f.loc())
-    else:
-        t = eff[0]
-        locals_ = {}
-        for s in f.node.body:
-            if isinstance(s, ast.Assign) and isinstance(s.targets[0], ast.Name):
-                locals_.setdefault(s.targets[0].id, s.value)
-        bad = None
-        try:
-            for pad in (0, 1, 7):
-                for esc in (False, True):
-                    for ln in (0, 0x3fff, 0x4000, 0x7fff, 0x8000, 0x10000):
-                        env = {"self.padding": pad, "self.securityEscape": esc, "self.length": ln}
-                        for k, v in locals_.items():
-                            if k in {x.id for x in ast.walk(t.expr) if isinstance(x, ast.Name)}:
-                                env[k] = ev(v, env)
-                        got = bool(ev(t.expr, env))
-                        three = bool(pad or esc)
-                        exp = ln >= (0x4000 if three else 0x8000)
-                        if got != exp:
-                            bad = (env, got, exp)
-        except Unknown as u:
-            raise AnalysisError("C15.WRITER: RecordHeader2.write guard uses unmodelled operand %s" % u)
-        ctx.check(R, bad is None, f.qname, "SSLv2 header: length must fit 15 bits (2-byte form) / 14 bits (3-byte form)",
-                  "RecordHeader2.write must refuse a length that does not fit the header form it writes (15 bits "
-                  "without padding/escape, 14 bits otherwise); for %s the guard says %s, expected %s - the length "
-                  "would silently wrap" % ((bad[0], bad[1], bad[2]) if bad else ("", "", "")), f.loc(t.ast))
+    from .common import spec_rows
+    spec_rows(ctx, R, "messages:RecordHeader2.write", [
+        dict(what="SSLv2 header: length must fit 15 bits (2-byte form) / 14 bits (3-byte form)",
+             dom={"self.padding": [0, 1, 7], "self.securityEscape": [False, True],
+                  "self.length": [0, 0x3fff, 0x4000, 0x7fff, 0x8000, 0x10000]},
+             abort=lambda e: e["self.length"] >= (0x4000 if (e["self.padding"] or e["self.securityEscape"]) else 0x8000),
+             msg="RecordHeader2.write must refuse a length that does not fit the header form it writes (15 bits "
+                 "without padding/escape, 14 bits otherwise) - the length would silently wrap")])
+    if True:
         # the same form decision drives the bits written
         src = [norm(s) for s in f.node.body]
         ok = any(s.startswith("if shortHeader:") or s == "if shortHeader:\n    firstByte |= 128" for s in src) or \
